@@ -130,4 +130,53 @@ impl LRNonStreamingLexerDef {
         //@endbody
     }
 }
+
+// ---- the rule's own look-ups (lexer.rs, impl Rule): each hands out the field of that name ----
+#[derive(Clone, Copy)] pub struct Span { pub st: usize, pub en: usize }
+#[derive(Clone, Copy)] pub enum StartStateOperation { ReplaceStack, Push, Pop }
+impl Name { #[verifier::external_body] pub fn as_str(&self) -> (r: &Name) ensures r.id() == self.id() { unimplemented!() } }
+pub struct RuleR { pub tok_id: Option<$T>, pub name: Option<Name>, pub name_span: Span, pub re_str: Name, pub start_states: Vec<usize>, pub target_state: Option<(usize, StartStateOperation)> }
+impl RuleR {
+    pub fn tok_id(&self) -> (r: Option<$T>) ensures r == self.tok_id, // OBL: C09.access.a_rules_token_id_is_the_one_stored
+    {
+        //@probe
+        //@body file=lrlex/src/lib/lexer.rs fn=tok_id
+        //@endbody
+    }
+    pub fn name(&self) -> (r: Option<&Name>)
+        ensures (r is Some) == (self.name is Some), r matches Some(x) ==> x.id() == self.name.unwrap().id(), // OBL: C11.access.a_rules_name_is_the_one_stored
+    {
+        //@probe
+        //@body file=lrlex/src/lib/lexer.rs fn=name
+        // `Option<String>::as_deref()`: the string inside, if any
+        //@rule n=1 `self\.name\.as_deref\(\)` => `match &self.name { Some(x) => Some(x.as_str()), None => None }`
+        //@endbody
+    }
+    pub fn name_span(&self) -> (r: Span) ensures r == self.name_span, // OBL: C11.access.a_rules_name_span_is_the_one_stored
+    {
+        //@probe
+        //@body file=lrlex/src/lib/lexer.rs fn=name_span
+        //@endbody
+    }
+    pub fn re_str(&self) -> (r: &Name) ensures r.id() == self.re_str.id(), // OBL: C11.access.a_rules_regex_text_is_the_one_stored
+    {
+        //@probe
+        //@body file=lrlex/src/lib/lexer.rs fn=re_str
+        //@endbody
+    }
+    pub fn start_states(&self) -> (r: &[usize]) ensures r@ == self.start_states@, // OBL: C09.access.a_rules_start_states_are_the_ones_stored_in_order
+    {
+        //@probe
+        //@body file=lrlex/src/lib/lexer.rs fn=start_states
+        //@endbody
+    }
+    pub fn target_state(&self) -> (r: Option<(usize, StartStateOperation)>) ensures r == self.target_state, // OBL: C09.access.a_rules_target_state_is_the_one_stored
+    {
+        //@probe
+        //@body file=lrlex/src/lib/lexer.rs fn=target_state
+        // `.clone()` of a value whose stand-in type is Copy
+        //@rule n=1 `self\.target_state\.clone\(\)` => `self.target_state`
+        //@endbody
+    }
+}
 //@use prelude/tail.rs
